@@ -177,8 +177,18 @@ func (eng *Engine) load() error {
 	eng.externByName = map[string]*Contract{}
 	eng.ifaceContracts = map[string]*Contract{}
 	eng.typeInvs = map[string][]*TypeInv{}
-	for i, cf := range eng.files {
-		pk := pkgs[i]
+	for _, cf := range eng.files {
+		var pk *packages.Package
+		for _, cand := range pkgs {
+			for _, gf := range cand.CompiledGoFiles {
+				if gf == cf.Path {
+					pk = cand
+				}
+			}
+		}
+		if pk == nil {
+			return fmt.Errorf("contract file %s is not part of a loaded package (missing //go:build verif or package clause?)", cf.Path)
+		}
 		sp := prog.Package(pk.Types)
 		if sp == nil {
 			return fmt.Errorf("no SSA package for %s", pk.PkgPath)
@@ -395,7 +405,7 @@ func (eng *Engine) newTop(fn *ssa.Function, c *Contract) *fnCtx {
 	fc := &fnCtx{eng: eng, fn: fn, contract: c, defs: newDefs(),
 		kindCtr: map[string]int{}, heapInit: map[string]string{}, heapSorts: map[string]string{}, strLits: map[string]string{},
 		params: map[string]Val{}, externsUsed: map[string]bool{}, inlinedFns: map[string]bool{}, calleeUsed: map[string]bool{},
-		callOrd: map[string]int{}, storeOrd: map[*ssa.Alloc]int{}}
+		callOrd: map[string]int{}, storeOrd: map[*ssa.Alloc]int{}, framedBases: map[string]bool{}}
 	fc.top = fc
 	return fc
 }
@@ -544,18 +554,7 @@ func (fc *fnCtx) obligeSat(st *State, name, desc string) {
 // frameObligations: every heap location allocated at entry and not listed in
 // `modifies` keeps its value.
 func (fc *fnCtx) frameObligations(ret *State, entryEnv *SpecEnv) {
-	c := fc.contract
-	allowed := map[string][]string{} // heap -> refs
-	for _, m := range c.Modifies {
-		locs, err := fc.modLocs(entryEnv, m)
-		if err != nil {
-			fc.specError(Clause{Text: "modifies " + m, File: c.File, Line: c.Line}, err)
-			continue
-		}
-		for _, l := range locs {
-			allowed[l.heap] = append(allowed[l.heap], l.ref)
-		}
-	}
+	allowed := fc.frameAllowed()
 	alloc0 := fc.entry.alloc
 	for _, h := range sortedKeys(fc.heapSorts) {
 		srt := fc.heapSorts[h]
@@ -579,7 +578,7 @@ func (fc *fnCtx) frameObligations(ret *State, entryEnv *SpecEnv) {
 			fc.oblige(ret, "frame", "frame-global-"+g.Name(), eq(v, ini), "frame: package variable "+g.Name()+" unchanged", token.NoPos, true)
 		}
 	}
-	if ret.heapBase != fc.entry.heapBase {
+	if ret.heapBase != fc.entry.heapBase && !fc.framedBases[ret.heapBase] {
 		fc.oblige(ret, "frame", "frame-havoc", "false", "frame: the function calls code without a frame contract (whole heap havocked)", token.NoPos, true)
 	}
 }
